@@ -26,6 +26,8 @@ type c12Case[T any] struct {
 	// recogniser of the algebraic leaves (scalars / points) inside this type's encodings, for the
 	// structure-preserving value edits; nil: only integer and big-number leaves are edited
 	fam *c12LeafFamily
+	// value generation is too slow for the quick tier (e.g. 3072-bit Paillier key generation)
+	thoroughOnly bool
 }
 
 type c12Runner func(c *Ctx, r *Rng, scale int)
@@ -95,6 +97,10 @@ func c12Marshal[T any](v T) (out []byte, res string) {
 }
 
 func c12RunCase[T any](c *Ctx, r *Rng, tc c12Case[T], scale int) {
+	if tc.thoroughOnly && scale == 1 {
+		c.Count("skipped-in-quick." + tc.name)
+		return
+	}
 	nVals, nMut := 3*scale, 70*scale
 	if tc.weight > 1 {
 		nVals = max(2, nVals/tc.weight)
@@ -172,6 +178,9 @@ func c12RunCase[T any](c *Ctx, r *Rng, tc c12Case[T], scale int) {
 		}
 		// structure-preserving value edits: every scalar / point / integer leaf, one at a time
 		perLeaf, sample := 2, 6
+		if tc.weight > 2 {
+			perLeaf, sample = 2, 3
+		}
 		if scale > 1 {
 			perLeaf, sample = 0, 24
 		}
@@ -204,7 +213,11 @@ func c12Mutant1[T any](c *Ctx, tc c12Case[T], orig T, m *c12Mutant) {
 	res, v, ok := c12Decode[T](m.bytes)
 	c.Count("mut." + m.kind + "." + strings.SplitN(res, ":", 2)[0])
 	if strings.HasPrefix(res, "panic") {
-		c.Violation(fmt.Sprintf("%s: decoder panicked on %s mutant %s: %s", tc.name, m.kind, hexBytes(m.bytes), res))
+		label := m.kind
+		if m.label != "" {
+			label = m.label
+		}
+		c.Violation(fmt.Sprintf("%s: decoder panicked on %s mutant %s: %s", tc.name, label, hexBytes(m.bytes), res))
 		c.Emit(lhs, "reject")
 		return
 	}
